@@ -20,7 +20,8 @@
      fixed = false   the code as it is in the repository
      fixed = true    the minimally repaired pipeline (untyped nil argument accepted iff the parameter kind is nilable and
                      passed as the zero value of the parameter type; nil result target, more than 128 expanded arguments,
-                     and omitted CallArgs for a function with mandatory parameters give descriptive errors)
+                     more than 128 results with a results option, and omitted CallArgs for a function with mandatory
+                     parameters give descriptive errors)
      mut             seeded defects used by the refutation theorems (a validation removed). *)
 From Coq Require Import List ZArith Bool Arith.
 Import ListNotations.
@@ -40,8 +41,8 @@ Definition funcof_max : nat := 128.
 
 Inductive errT :=
 | EArgsLen | EArgsAssign (i : nat) | EArgsNil (i : nat) | EArgsTooMany
-| EResLen | EResNilTarget (i : nat) | EResNotPtr (i : nat) | EResNilPtr (i : nat) | EResAssign (i : nat)
-| ESliceNotPtr | ESliceNilPtr | ESliceNotSlice | ESliceAssign (i : nat)
+| EResLen | EResTooMany | EResNilTarget (i : nat) | EResNotPtr (i : nat) | EResNilPtr (i : nat) | EResAssign (i : nat)
+| ESliceNotPtr | ESliceNilPtr | ESliceNotSlice | ESliceTooMany | ESliceAssign (i : nat)
 | ECallArgsMissing.
 
 Inductive panicT :=
@@ -191,9 +192,14 @@ Fixpoint check_targets (i : nat) (outs : list ty) (targets : list val) : res uni
       end
   end.
 
+(* length check; (repaired: the reflect.FuncOf limit as an error;) the loop over the targets; then
+   reflect.FuncOf(out, nil, false), which panics beyond 128 *)
 Definition call_results (sg : sig) (targets : list val) : res rthunk :=
   if (length targets =? length (s_out sg)) || mut_is_reslen mut
-  then bind (check_targets 0 (s_out sg) targets) (fun _ => Ok (RPtrs (s_out sg) targets))
+  then if fixed && (funcof_max <? length (s_out sg)) then Err EResTooMany
+       else bind (check_targets 0 (s_out sg) targets) (fun _ =>
+              if funcof_max <? length (s_out sg) then Panic PFuncOfTooMany
+              else Ok (RPtrs (s_out sg) targets))
   else Err EResLen.
 
 (* ---- CallResultsSlice (callable.go:149-182) ---- *)
@@ -210,8 +216,11 @@ Definition call_results_slice (sg : sig) (target : val) : res rthunk :=
       if negb (is_ptr (kind t)) then Err ESliceNotPtr
       else if vnil target then Err ESliceNilPtr
       else if negb (is_slice (kind (elem t))) then Err ESliceNotSlice
+      else if fixed && (funcof_max <? length (s_out sg)) then Err ESliceTooMany
       else let e := elem (elem t) in
-           bind (check_slice_assign 0 (s_out sg) e) (fun _ => Ok (RSlice (map (fun _ => e) (s_out sg)) target))
+           bind (check_slice_assign 0 (s_out sg) e) (fun _ =>
+             if funcof_max <? length (s_out sg) then Panic PFuncOfTooMany      (* reflect.FuncOf(out, nil, false) *)
+             else Ok (RSlice (map (fun _ => e) (s_out sg)) target))
   end.
 
 (* ---- bigbuff.Call (callable.go:72-83): options in order, the first error wins, later options overwrite ---- *)
@@ -361,12 +370,14 @@ Definition target_ok (o : ty) (r : val) : bool :=
   | Some t => is_ptr (kind t) && negb (vnil r) && assignable o (elem t)
   end.
 
-Definition results_valid (sg : sig) (targets : list val) : bool := forallb2 target_ok (s_out sg) targets.
+Definition results_valid (sg : sig) (targets : list val) : bool :=
+  forallb2 target_ok (s_out sg) targets && (length (s_out sg) <=? funcof_max).
 
 Definition slice_valid (sg : sig) (target : val) : bool :=
   match vty target with
   | None => false
   | Some t => is_ptr (kind t) && negb (vnil target) && is_slice (kind (elem t))
+              && (length (s_out sg) <=? funcof_max)
               && forallb (fun o => assignable o (elem (elem t))) (s_out sg)
   end.
 
